@@ -113,17 +113,14 @@ theorem splitAt1_length (c : UInt8) (s post : Bytes) (pre : Bytes)
   omega
 
 /-- Lines as `buffer_getline` yields them: split on '\n'; a trailing newline
-    does not produce a final empty line; each line is cut at its first NUL. -/
-def rawLines : Bytes → List Bytes
-  | [] => []
-  | s@(_ :: _) =>
-    match h : splitAt1 10 s with
-    | (l, none) => [l]
-    | (l, some rest) =>
-      have : rest.length < s.length := splitAt1_length 10 s rest l h
-      l :: rawLines rest
-termination_by s => s.length
+    does not produce a final empty line (`cur` is the line being collected). -/
+def rawLinesAux : Bytes → Bytes → List Bytes
+  | [], cur => if cur.isEmpty then [] else [cur]
+  | c :: rest, cur => if c = 10 then cur :: rawLinesAux rest [] else rawLinesAux rest (cur ++ [c])
 
+def rawLines (s : Bytes) : List Bytes := rawLinesAux s []
+
+/-- … each line cut at its first NUL (callers use them as C strings). -/
 def lines (s : Bytes) : List Bytes := (rawLines s).map cstr
 
 /-- Hex encoding for the driver protocol. -/
